@@ -601,7 +601,8 @@ impl RustCodeGenerator {
                     } else {
                         Cow::Owned(format!("{}_{}", field.to_uppercase(), name))
                     },
-                    r#type,
+                    // a named number / bit is a plain value, even if the field itself is optional
+                    r#type.as_no_option(),
                     value,
                     1,
                 ));
